@@ -53,6 +53,14 @@ Proof.
     apply esc_action_failsafe.
 Qed.
 
+(** ... nor any other scheme: whenever the text before the first ':' contains no '/' and is not http, https or mailto
+    (case-insensitively), the action is the fixed fail-safe text *)
+Theorem C17_only_safe_schemes : forall s p, cut_colon s = Some p -> proto_ok p = false -> esc_action s = b "#ZgotmplZ".
+Proof. exact unsafe_scheme. Qed.
+Example C17_other_schemes : map esc_action [b "file:///etc/passwd"; b "blob:x"; b "JAVASCRIPT:alert(1)"; b "  data:text/html,x"; b "x-app:open"]
+  = [b "#ZgotmplZ"; b "#ZgotmplZ"; b "#ZgotmplZ"; b "#ZgotmplZ"; b "#ZgotmplZ"].
+Proof. vm_compute. reflexivity. Qed.
+
 Print Assumptions C17_post_shape.
 Print Assumptions C17_logout_shape.
 Print Assumptions C17_extract_post.
@@ -62,3 +70,4 @@ Print Assumptions C17_values_logout.
 Print Assumptions C17_no_breakout_post.
 Print Assumptions C17_no_breakout_logout.
 Print Assumptions C17_no_script_url.
+Print Assumptions C17_only_safe_schemes.
